@@ -432,4 +432,43 @@ example : hostport (strBytes "example.com:8080") (strBytes ":80") = (strBytes "e
 example : hostport (strBytes "[::1]") (strBytes ":443") = (strBytes "[::1]", strBytes "[::1]:443") := by decide +kernel
 example : hostport (strBytes "[::1]:9000") (strBytes ":443") = (strBytes "[::1]", strBytes "[::1]:9000") := by decide +kernel
 
+/-! ### the TLS session of a wss URL -/
+
+/-- With no name configured (no TLS configuration at all, or one without a ServerName) the session
+    is set up for the URL's own host name, whatever was dialed before: the shared configuration
+    (the caller's, or the package-level default) is left as it was. -/
+theorem tls_name_is_url_host (cfgName : Option Bytes) (hostname : Bytes) (h : (cfgName.getD []) = []) :
+    tlsServerName cfgName hostname = (hostname, []) := by
+  unfold tlsServerName; simp [h]
+
+theorem tls_name_configured (name hostname : Bytes) (h : name ≠ []) :
+    tlsServerName (some name) hostname = (name, name) := by
+  unfold tlsServerName
+  cases name with
+  | nil => exact absurd rfl h
+  | cons a as => simp
+
+/-- Any history of dials through the same configuration: the configuration never changes, so every
+    dial's server name is a function of that dial's own URL host alone. -/
+def dialAll (cfgName : Option Bytes) : List Bytes → List Bytes × Option Bytes
+  | [] => ([], cfgName)
+  | h :: hs =>
+    let (n, after) := tlsServerName cfgName h
+    let (ns, fin) := dialAll (cfgName.map fun _ => after) hs
+    (n :: ns, fin)
+
+theorem dial_history_independent (cfgName : Option Bytes) (hosts : List Bytes) :
+    dialAll cfgName hosts = (hosts.map fun h => (tlsServerName cfgName h).1, cfgName) := by
+  induction hosts with
+  | nil => rfl
+  | cons h hs ih =>
+    have hsame : (cfgName.map fun _ => (tlsServerName cfgName h).2) = cfgName := by
+      cases cfgName with
+      | none => rfl
+      | some n => unfold tlsServerName; simp only [Option.getD_some, Option.map_some]; split <;> rfl
+    simp only [dialAll, hsame, ih, List.map_cons]
+
+example : dialAll none [strBytes "first.example", strBytes "second.example"]
+    = ([strBytes "first.example", strBytes "second.example"], none) := by decide +kernel
+
 end Ws.C10
